@@ -420,6 +420,9 @@ func checkC16Writer(c caseC08, rec *ev.Rec) *ev.Failure {
 		}
 		return nil
 	})
+	if oddOutcome(c.Cfg, f, rec) {
+		return nil
+	}
 	if f != nil {
 		return f
 	}
